@@ -23,6 +23,10 @@ def marked(r, v, i, kinds=None):
         pool += [("reopen", 10)]
     if len(v.tasks) >= 2:
         pool += [("sequence", 8)]
+    if v.epics:
+        pool += [("new_in_epic", 6)]
+        if v.tasks:
+            pool += [("set_epic", 6)]
     if kinds:
         pool = [(k, w) for k, w in pool if k in kinds] or pool
     k = r.weighted(pool)
@@ -31,6 +35,13 @@ def marked(r, v, i, kinds=None):
     if k == "new+state": return dict(cmd="new_task", **J({"title": tag + " new", "state": r.pick(["doing", "blocked", "done"])})), ag, k
     if k == "set": return dict(cmd="set", id=r.pick(v.tasks), **J({"title": tag + " retitled"})), ag, k
     if k == "set+state": return dict(cmd="set", id=r.pick(v.tasks), **J({"title": tag + " retitled", "state": r.pick(gen.STATES)})), ag, k
+    if k in ("new_in_epic", "set_epic"):
+        # prefer an epic without children: the one `prune` would take
+        used = {v.by_id[t].get("epic_id", "") for t in v.tasks}
+        empty = [e for e in v.epics if e not in used]
+        e = r.pick(empty) if empty and r.p(80) else r.pick(v.epics)
+        if k == "new_in_epic": return dict(cmd="new_task", **J({"title": tag + " new", "epic": e})), ag, k
+        return dict(cmd="set", id=r.pick(v.tasks), **J({"title": tag + " retitled", "epic": e})), ag, k
     if k == "reopen": return dict(cmd="set", id=r.pick(closed), **J({"title": tag + " reopened", "state": "todo"})), ag, k
     if k == "claim_id": return {"cmd": "claim", "id": r.pick(todo or v.tasks)}, ag, k
     if k == "claim_oldest": return {"cmd": "claim_oldest", "epic": ""}, ag, k
@@ -78,7 +89,7 @@ def serial_twin(base, order, cmds):
         t.close()
 
 
-def judge(ctx, prop, base, c, cmds, results, trace, step):
+def judge(ctx, prop, base, c, cmds, results, trace, step, post_oracle=None):
     """oracles after one schedule on clone `c` (base = the common pre-state); returns True if a violation was reported"""
     pre = base.log_bytes()
     data = c.log_bytes()
@@ -86,6 +97,10 @@ def judge(ctx, prop, base, c, cmds, results, trace, step):
     g = c.graph()
     if bad or "err" in g:
         ctx.violation("%s log is not whole JSON lines after a concurrent schedule" % prop, bad or g.get("err", "")[:200], {"trace": trace + [step]}); return True
+    if post_oracle:
+        why = post_oracle(g["graph"])
+        if why:
+            ctx.violation("%s %s after a concurrent schedule (%s ∥ %s)" % (prop, why[0], cmds[0][0]["cmd"], cmds[1][0]["cmd"]), why[1], {"trace": trace + [step]}); return True
     ok = [i for i in range(len(cmds)) if results[i]["exit"] == 0]
     rewrote = any(cmds[i][0]["cmd"] in ("compact", "plan") for i in ok)
     if data.startswith(pre) and not rewrote:
@@ -134,8 +149,8 @@ def judge(ctx, prop, base, c, cmds, results, trace, step):
     return False
 
 
-def explore(ctx, prop, r, kindsA=None, kindsB=None, points="all", b_modes=("complete", "hold"), max_points=4, state_cmds=10, big=0):
-    base, v, trace = crash.build_state(ctx, r, state_cmds + r.n(8), big=big)
+def explore(ctx, prop, r, kindsA=None, kindsB=None, points="all", b_modes=("complete", "hold"), max_points=4, state_cmds=10, big=0, post_oracle=None, weights=None):
+    base, v, trace = crash.build_state(ctx, r, state_cmds + r.n(8), big=big, **({"weights": weights} if weights else {}))
     try:
         reqA, agA, labA = marked(r, v, 0, kindsA)
         reqB, agB, labB = marked(r, v, 1, kindsB)
@@ -187,8 +202,10 @@ def explore(ctx, prop, r, kindsA=None, kindsB=None, points="all", b_modes=("comp
                         ra = pkA.resume(); pkA = None
                         rb = pkB.resume() if pkB.parked else pkB.wait(10)
                         pkB = None
+                    if ra.get("tracer_error") or rb.get("tracer_error"):
+                        ctx.count(1, key=("skipped: tracer error",)); continue
                     ctx.count(1, key=(labA, labB, atA, mode))
-                    if judge(ctx, prop, base, c, cmds, [ra, rb], trace, step):
+                    if judge(ctx, prop, base, c, cmds, [ra, rb], trace, step, post_oracle):
                         return
                 finally:
                     for pk in (pkA, pkB):
